@@ -139,6 +139,18 @@ pub fn check(c: &Concrete, ex: &Expect) -> (Vec<Violation>, Outcome, Option<Outc
             }
         }
     }
+    // 9. initialisation order: Lua scopes textually, so a generated variable that is read or assigned above its
+    // `local` declaration is a different (global, nil) variable - the split program would then not behave like
+    // the one-file program, whatever the interpreter does with it
+    if ex.expect_ok && matches!(out.result, ResultObs::Ok) {
+        if let Some((name, line, text)) = used_before_declared(&out.sink_bytes) {
+            vs.push(v(
+                "used-before-declared",
+                "-",
+                format!("the emitted Lua uses {} on line {} before any declaration of it ({})", name, line, text),
+            ));
+        }
+    }
     // 4b. acceptance is invariant under splitting: the same globals in one file
     let mut flat_out = None;
     if let Some(flat) = &ex.flattened {
@@ -158,6 +170,78 @@ pub fn check(c: &Concrete, ex: &Expect) -> (Vec<Violation>, Outcome, Option<Outc
         flat_out = Some(fo);
     }
     (vs, out, flat_out)
+}
+
+/// The first generated variable (`V<digits>`) of the program part of the emitted Lua that is declared somewhere
+/// and occurs above every declaration of it (`local V`, `local function V`, a parameter list, a `for` header). None if there is none or
+/// the output does not have the expected shape.
+pub fn used_before_declared(lua: &[u8]) -> Option<(String, usize, String)> {
+    let text = std::str::from_utf8(lua).ok()?;
+    let start = text.find("-- End Sylt preamble").unwrap_or(0);
+    let first_line = text[..start].matches('\n').count();
+    // (the emitter also uses undeclared temporaries, `V9 = 10` / `V0 = V9`: a name that is never declared anywhere
+    // is such a temporary and is harmless; what matters is a use *above* the declaration that exists further down)
+    let mut declared: std::collections::BTreeSet<&str> = std::collections::BTreeSet::new();
+    let mut early: Vec<(&str, usize, String)> = Vec::new();
+    let ident = |b: u8| b.is_ascii_alphanumeric() || b == b'_';
+    for (ln, line) in text[start..].lines().enumerate() {
+        let b = line.as_bytes();
+        let mut i = 0;
+        // inside a string literal nothing is a variable
+        let mut in_str: Option<u8> = None;
+        while i < b.len() {
+            let ch = b[i];
+            if let Some(q) = in_str {
+                if ch == b'\\' {
+                    i += 2;
+                    continue;
+                }
+                if ch == q {
+                    in_str = None;
+                }
+                i += 1;
+                continue;
+            }
+            if ch == b'"' || ch == b'\'' {
+                in_str = Some(ch);
+                i += 1;
+                continue;
+            }
+            if ch == b'-' && i + 1 < b.len() && b[i + 1] == b'-' {
+                break; // comment
+            }
+            if ch == b'V' && (i == 0 || !(ident(b[i - 1]) || b[i - 1] == b'.' || b[i - 1] == b':')) {
+                let mut j = i + 1;
+                while j < b.len() && b[j].is_ascii_digit() {
+                    j += 1;
+                }
+                if j > i + 1 && (j == b.len() || !ident(b[j])) {
+                    let name = &line[i..j];
+                    if !declared.contains(name) {
+                        let before = line[..i].trim_end();
+                        let list_only = |s: &str| s.bytes().all(|c| ident(c) || c == b',' || c == b' ');
+                        let declaring = before.ends_with("local")
+                            || before.ends_with("local function")
+                            || before.trim_start().strip_prefix("local ").map(|r| list_only(r)).unwrap_or(false)
+                            || before.trim_start().strip_prefix("for ").map(|r| list_only(r)).unwrap_or(false)
+                            || before.rfind('(').map(|p| list_only(&before[p + 1..]) && { let h = before[..p].trim_end(); h.ends_with("function") || h.rsplit(|c: char| !(c.is_ascii_alphanumeric() || c == '_')).next().map(|w| !w.is_empty()).unwrap_or(false) && h.contains("function ") }).unwrap_or(false);
+                        if declaring {
+                            declared.insert(name);
+                            if let Some((n, l, t)) = early.iter().find(|(n, _, _)| *n == name) {
+                                return Some((n.to_string(), *l, t.clone()));
+                            }
+                        } else if !early.iter().any(|(n, _, _)| *n == name) {
+                            early.push((name, first_line + ln + 1, line.trim().chars().take(80).collect()));
+                        }
+                    }
+                    i = j;
+                    continue;
+                }
+            }
+            i += 1;
+        }
+    }
+    None
 }
 
 /// The body of the function that the last line of the emitted Lua calls (`local Vn = Vk()`),
